@@ -155,7 +155,15 @@ def evalRoute (c : Ctx) (j : JobS) : Bool :=
     | none => true
   let timeOk := j.places.any (fun p => p.tws.any (fun w => shiftEndOk w.1 && decide (c.veh.earliest ≤ w.2)))
   let last := c.tour.length + (if c.veh.endAt.isSome then 1 else 0)
-  let capOkB := (capViolationAt c 0 j.dem true).isNone || (capViolationAt c last j.dem true).isNone
+  -- a static delivery is the least restrictive at the start and anything else at the end: a demand that has both is
+  -- checked by parts (a necessary condition: such a job may fit only in between)
+  let capOkB := match j.dem with
+    | some d =>
+      if vNotEmpty d.sd && (vNotEmpty d.sp || vNotEmpty d.dp || vNotEmpty d.dd) then
+        (capViolationAt c 0 (some { sp := c.zero, dp := c.zero, sd := d.sd, dd := c.zero }) true).isNone &&
+        (capViolationAt c last (some { sp := d.sp, dp := d.dp, sd := c.zero, dd := d.dd }) true).isNone
+      else (capViolationAt c 0 j.dem true).isNone || (capViolationAt c last j.dem true).isNone
+    | none => (capViolationAt c 0 j.dem true).isNone || (capViolationAt c last j.dem true).isNone
   timeOk && capOkB
 
 /-! ## cost estimates (C20) -/
